@@ -2045,38 +2045,65 @@ def counter_width_rules(fb, R):
     ftype = {f['name']: f['tC'] for f in rec.fields} if rec else {}
     from ..c17_util import _SIZES
     methods = [f for f in fb.functions if f.cls == WKB and f.has_cfg and not f.is_lambda]
-    n_sites = 0
+    byusr = {}
     for f in methods:
+        byusr.setdefault(f.usr, f)
+
+    def sites(f, binding, depth=0):
+        """[(function, call node, count expression as (function, node id))] set_size calls that f reaches, directly or through helpers of
+        the class; a count that is a helper's parameter is traced to the argument of the call that passed it."""
+        out = []
         for n in f.all_nodes():
-            if n.get('k') != 'call' or n.get('q') != WKB + '::set_size' or len(n.get('args', [])) != 2:
+            if n.get('k') != 'call':
                 continue
+            if n.get('q') == WKB + '::set_size' and len(n.get('args', [])) == 2:
+                cnt = (f, n['args'][1])
+                d = local_or_param(f, n['args'][1])
+                if d is not None and d in binding:
+                    cnt = binding[d]
+                out.append((f, n, cnt))
+            elif n.get('u') in byusr and n.get('q') != WKB + '::set_size' and depth < 3 and n.get('recv') is not None and is_this(f, n['recv']):
+                g = byusr[n['u']]
+                if g is f or g.name in ('header',):
+                    continue
+                b2 = {}
+                for prm, a in zip(g.params, n.get('args', [])):
+                    da = local_or_param(f, a)
+                    b2[prm['d']] = binding[da] if (da is not None and da in binding) else (f, a)
+                out.extend(sites(g, b2, depth + 1))
+        return out
+    n_sites = 0
+    rec_methods = {m['name']: m.get('access') for m in (rec.methods if rec else [])}
+    for f in methods:
+        if f.kind in ('ctor', 'dtor') or rec_methods.get(f.name) != 'public':
+            continue
+        key = '%s::%s#count-type-covers-count-field' % (WKB, f.name)
+        for (sf, n, (cf, cnt)) in sites(f, {}):
             n_sites += 1
-            key = '%s::%s#count-type-covers-count-field' % (WKB, f.name)
-            cnt = n['args'][1]
-            if f.const_value(cnt) is not None:
-                R.ok('B8-counter-width-covers-count-field', key, f.loc(n['id']), detail='constant %d' % f.const_value(cnt))
+            if cf.const_value(cnt) is not None:
+                R.ok('B8-counter-width-covers-count-field', key, sf.loc(n['id']), detail='constant %d' % cf.const_value(cnt))
                 continue
-            fld = this_field(f, cnt)
-            d = local_or_param(f, cnt)
+            fld = this_field(cf, cnt)
+            d = local_or_param(cf, cnt)
             t = None
-            what = f.expr(cnt)
+            what = cf.expr(cnt)
             if fld is not None:
                 t = ftype.get(fld)
             elif d is not None:
-                t = next((p['tC'] for p in f.params if p['d'] == d), None)
+                t = next((p['tC'] for p in cf.params if p['d'] == d), None)
                 if t is None:
-                    dn, dv = decl_of(f, d)
+                    dn, dv = decl_of(cf, d)
                     t = dv['tC'] if dv else None
             tt = (t or '').replace('const ', '').strip()
             sz = _SIZES.get(tt)
             if sz is None:
-                R.broken('%s: type %r of the count %s handed to set_size not understood' % (f.full, t, what))
+                R.broken('%s: type %r of the count %s handed to set_size not understood' % (sf.full, t, what))
                 continue
-            R.check(sz >= width and tt not in ('bool',), 'B8-counter-width-covers-count-field', key, f.loc(n['id']),
+            R.check(sz >= width and tt not in ('bool',), 'B8-counter-width-covers-count-field', key, sf.loc(n['id']),
                     'the count `%s` written into the %d byte count field by %s has the %d byte type %s: it wraps at %d elements while the field could '
                     'hold them' % (what, width, f.name, sz, tt, 1 << (8 * sz)), detail='%s : %s' % (what, tt))
     if n_sites == 0:
-        R.broken('%s: no call of set_size found' % WKB)
+        R.broken('%s: no public method reaches a call of set_size' % WKB)
 
 
 def _is_const_t(t):
